@@ -106,7 +106,7 @@ Frame(role, arg, v6) ==
       [] role = "set_anchor" -> IF v6 THEN {<<arg \o ".anchor", "add">>} ELSE {}
       [] role = "set_witness" -> {<<arg \o ".actions[].spend.witness", "add">>, <<arg \o ".actions[].spend.witness", "mod">>,
                                   <<"sapling.spends[].witness", "add">>, <<"sapling.spends[].witness", "mod">>}
-      [] role = "reparse"    -> {<<"sapling.anchor", "add">>}      \* v1 has no absent Sapling anchor
+      [] role = "reparse"    -> {}
       [] role = "io_finalize" -> {<<"global.tx_modifiable", "mod">>, <<"sapling.bsk", "add">>, <<"orchard.bsk", "add">>,
                                   <<"ironwood.bsk", "add">>, <<"sapling.spends[].spend_auth_sig", "add">>,
                                   <<"sapling.spends[].dummy_ask", "del">>} \cup
@@ -123,7 +123,7 @@ FrameIsEffectFree ==
     \A role \in {"update", "sign_t", "sign_s", "prove", "redact", "compact", "resolve", "verify", "finalize",
                  "set_anchor", "set_witness", "reparse", "io_finalize"} :
       \A arg \in Updatable \cup Pools \cup {"sapling"} \cup Protected \cup Anchors : \A v6 \in BOOLEAN :
-        \A w \in Frame(role, arg, v6) : w[1] \notin Protected /\ (w[1] \in Anchors /\ ~v6 => w[2] = "add" /\ role = "reparse")
+        \A w \in Frame(role, arg, v6) : w[1] \notin Protected /\ (w[1] \in Anchors => v6)
 
 \* ------------------------------------------------------------------------------------ encoding rule
 \* p: [txv6, iron, nv2, oanchor, sanchor, cvcmx, memo : BOOLEAN]
